@@ -1,10 +1,11 @@
 ID = 'C20'
 TITLE = 'Greedy design never worsens the loss and takes the best substitution each step'
-CONTRACT_MODULES = ['contracts.design_c']
-FUNCTIONS = ['tangermeme.design._fast_tile_substitute', 'tangermeme.design.greedy_substitution#best-candidate']
+CONTRACT_MODULES = ['contracts.design_c', 'contracts.ersatz_c', 'contracts.utils_c']
+FUNCTIONS = ['tangermeme.design._fast_tile_substitute', 'tangermeme.design.greedy_substitution#best-candidate',
+             'tangermeme.design.greedy_substitution#apply-best']
 BOUNDED = 'bounded.C20'
 BOUNDED_BUDGET = {'quick': 120, 'thorough': 600}
 LEVEL = 'other'
-EXPLANATION = 'deductive: _fast_tile_substitute row i = X with the motif at offset i (three nested loop invariants, index safety, prange frame); selection step of greedy_substitution (fragment: the four statements after the per-position losses of one motif): the running best candidate is replaced whenever the smallest loss of this motif is strictly better, never when it is worse, records that minimum and one of its positions, and best_improvement is the running maximum (argmin axiom); bounded: brute-force enumeration of all single substitutions with exact-arithmetic models'
+EXPLANATION = 'deductive: _fast_tile_substitute row i = X with the motif at offset i (three nested loop invariants, index safety, prange frame); selection step of greedy_substitution (fragment: the four statements after the per-position losses of one motif): the running best candidate is replaced whenever the smallest loss of this motif is strictly better, never when it is worse, records that minimum and one of its positions, and best_improvement is the running maximum (argmin axiom); application step (fragment: the `if best_motif_idx ...` statement after the motif loop): the new sequence is the old one with exactly motifs[best_motif_idx] at best_pos (contract of ersatz.substitute, verified under C01) and loss_prev becomes the recorded loss, nothing changes when no candidate improved; bounded: brute-force enumeration of all single substitutions with exact-arithmetic models'
 ASSUMPTIONS = ['predict contract (C03)', 'loss deterministic']
 TRUSTED = []
